@@ -1,4 +1,12 @@
 use crate::Packet;
+#[cfg(rs_tftpd_verif)]
+use crate::verif::{
+    mpsc::{self, Receiver, Sender},
+    net::UdpSocket,
+};
+#[cfg(rs_tftpd_verif)]
+use std::{error::Error, net::SocketAddr, sync::Mutex, time::Duration};
+#[cfg(not(rs_tftpd_verif))]
 use std::{
     error::Error,
     net::{SocketAddr, UdpSocket},
